@@ -459,9 +459,16 @@ func ruleValidatorsAgree(c *Ctx) {
 				consumers++
 				p := ci.Common().StaticCallee().String()
 				okV := false
+				// a separator check can be written with any of the strings functions that find it
+				same := []string{p}
+				if p == "strings.Split" {
+					same = []string{"strings.Split", "strings.SplitN", "strings.Count", "strings.Cut", "strings.Index", "strings.IndexByte", "strings.Contains"}
+				}
 				for _, tag := range fieldTags[fv] {
-					if regs[tag][p] {
-						okV = true
+					for _, q := range same {
+						if regs[tag][q] {
+							okV = true
+						}
 					}
 				}
 				if !okV {
